@@ -9,7 +9,7 @@ pub fn prop() -> HistProp {
     opts.contract = true;
     HistProp {
         opts,
-        cfgs: || overlay_cfg_strategy(1, 2),
+        cfgs: || crate::gen::with_emb(overlay_cfg_strategy(1, 2)),
         max_ops: 35,
         max_prepop: 14,
         cases_quick: 2500,
